@@ -80,6 +80,7 @@ struct ExecResult
   std::vector<int> trace;
   bool harnessError = false; std::string harnessWhat;
   uint64_t opsExecuted = 0;
+  int finalTask = -1;   // index in hist of the observations the main context made after the join
 };
 
 ExecResult runScenario(const Plan & plan, bool recordTrace);
